@@ -396,6 +396,14 @@ class Manager:
     def removeHandler(self, method, event=None):
         names = method.names if event is None else [event]
 
+        if not names:
+            # declared for all events: filed by addHandler() as a global
+            # handler or under the name '*'
+            if method.channel == '*':
+                self._globals.discard(method)
+            else:
+                names = ['*']
+
         for name in names:
             self._handlers[name].remove(method)
             if not self._handlers[name]:
